@@ -11,7 +11,9 @@ PROP = {
              "0,1,3,4,55,56,63,64,119,120,255,256, up to 1.5 KB (20 KB thorough), one 64 KiB payload per run (both directions in "
              "thorough), server bytes cut at random / tiny / field-boundary write sizes, the pieces of the handshake confirmation sent as "
              "separate TCP segments (12 ms apart); a family with the 68-byte confirmation cut in two after k bytes, k in "
-             "1,3,4,5,35,36,37,67 (every k in 1..67 in thorough). (b) liteclient.ParsePacket on model-checked "
+             "1,3,4,5,35,36,37,67 (every k in 1..67 in thorough); sequences of 2..5 such sessions made by one process (kind c11.multi) to "
+             "servers drawn from a pool of three (A,B / A,A / A,B,A ...), with ONE caller-owned key buffer overwritten with the next "
+             "server's key, or a fresh slice each time. (b) liteclient.ParsePacket on model-checked "
              "frames under 5 segmentations (single, bytewise, random with empty reads, field boundaries, 4095/4096/4097/1460 blocks): "
              "valid, every truncation, every position x single-bit and single-byte substitution (all 8 bits + 0xff + random in "
              "thorough), sampled corruptions of large frames, length-field attacks (0,1,63,64,65,8MiB-1,8MiB,8MiB+1,2^31,2^32-1 x "
@@ -23,7 +25,8 @@ PROP = {
              "lock / encrypt / write / unlock transition system run on a schedule that contains the blocked attempts; over TCP - 2..8 "
              "goroutines x 1..4 packets of mixed sizes through the real handshake to the reference server, which reads every byte and "
              "decodes; per-sender payload sequences compared with the model run on a random schedule of sender steps; load runs "
-             "(8x40x2 KiB, 4x60x512 B; thorough also 8x150x16 KiB, 8x100x8 KiB, 3x300x64 B). (f) Connection layer over wall-clock time: "
+             "(8x40x2 KiB, 4x60x512 B, 6x8x200 KB whose marshal/checksum windows overlap; concurrent runs execute in a child process so "
+             "that a fatal error in a library goroutine is the outcome 'crash; thorough also 8x150x16 KiB, 8x100x8 KiB, 3x300x64 B). (f) Connection layer over wall-clock time: "
              "the unmodified NewConnection (ping goroutine, reader, reconnect) against the reference server on its own listener, in "
              "child processes that overlap the other cases (75 s watchdog, a hang is a reported failure): steady traffic for "
              "12.6..13.5 s on ONE session (gaps 250..750 ms, thorough also up to 6 s; pings answered; unknown pongs interspersed; every "
@@ -39,7 +42,8 @@ PROP = {
              "Connection.reader / reconnect. (g) Packet.MagicType on payloads of 0..6 bytes and known magics. Oracles on the implementation: valid frames delivered intact, altered frames "
              "never delivered, truncation ends in EOF, receive loop delivers exactly the intact prefix, both session directions "
              "in order and intact, reference server completes the handshake, concurrent senders: the server decodes exactly N*K intact frames, per "
-             "sender in order, encrypt and write calls alternate strictly, wall-clock histories: exactly the scheduled sessions, every packet of every "
+             "sender in order, encrypt and write calls alternate strictly, the ephemeral public keys of all handshakes of a sequence / of a Connection's "
+             "sessions are pairwise different, wall-clock histories: exactly the scheduled sessions, every packet of every "
              "session received in order on the one channel (only the 12-byte tcp.pong and auth nonces are consumed), every marked packet "
              "decoded, Send leaves the caller's payload buffer unchanged, 8 MiB-64 round-trips and 8 MiB-63 is rejected "
              "(thorough). A class is (stream, segmentation / position / length bucket, size bucket, outcome)."),
@@ -56,7 +60,7 @@ PROP = {
                     "data packet for as long as no gap between arrivals reaches reconnectTimeout and the transport reports no error "
                     "(nothing else ends a session), and whatever any session's reader delivers reaches the channel returned once by "
                     "Responses(); a payload that starts with the pong magic is consumed iff it has exactly 12 bytes; the single-timer reader, the "
-                    "channel-per-handshake, the pong-prefix (len >= 12), the one-Read handshake confirmation and the reader that survives "
+                    "channel-per-handshake, the pong-prefix (len >= 12), the one-Read handshake confirmation, the key pair cached across servers and the reader that survives "
                     "its closed channel are refuted in Proofs/AdnlHistory.v; the confirmation is parsed under every segmentation "
                     "(C11_confirmation_any_segmentation, C11_session_agrees). "
                     "coq/Properties/C11_gen.v re-checks params offsets 0/32/64/80/96/160, the key-id tag, the ParsePacket bounds and "
